@@ -48,7 +48,7 @@ def manifest():
         "version": 1,
         "setup_cmd": "./setup.sh",
         "hooks": {
-            "guard": "cargo feature verif_hooks (datafusion-physical-plan, ...; off by default)",
+            "guard": "cargo feature verif_hooks (declared, empty and off by default, in datafusion-physical-plan, datafusion-cli and datafusion-benchmarks)",
             "enable": "harness crates depend on /repo crates by path with features=[\"verif_hooks\"]; built into /verif/build/target",
             "baseline_off_cmd": "cd /repo && cargo nextest run --workspace --no-fail-fast --test-threads 8 --offline || cargo test --workspace --no-fail-fast --offline",
             "source_commits": HOOK_COMMITS,
@@ -65,7 +65,7 @@ def manifest():
     }
 
 
-HOOK_COMMITS = ["5cc9999"]
+HOOK_COMMITS = ["5cc9999", "c8ab79e", "3b6d884"]
 
 if __name__ == "__main__":
     json.dump(manifest(), open(os.path.join(VERIF, "MANIFEST.json"), "w"), indent=1)
